@@ -10,14 +10,14 @@ EXTENDS Naturals, Sequences, FiniteSets, TLC, IOUtils, Json
 Trace == ndJsonDeserialize(IOEnv.VERIF_TRACE)
 Limit == 10
 NodeOK(n, o) ==
-    /\ n.enumBad = 0 /\ n.badUtf8 = 0 /\ n.tsBad = 0 /\ n.durBad = 0 /\ (o.any => n.anyBad = 0) /\ n.maskBad = 0
+    /\ n.enumBad = 0 /\ n.badUtf8 = 0 /\ n.tsBad = 0 /\ n.durBad = 0 /\ n.anyBad = 0 /\ n.maskBad = 0
     /\ (o.mapped => n.unmapped = 0)
     /\ ((o.noempty /\ n.depth < Limit) => n.emptyLists = 0)
     /\ ((o.noempty /\ n.depth <= Limit) => n.emptyScalarLists = 0)
     /\ ((o.nonil /\ n.depth < Limit) => n.nilMsgs = 0)
 Why(n, o) ==
     IF n.enumBad # 0 THEN "enum-undeclared" ELSE IF n.badUtf8 # 0 THEN "utf8" ELSE IF n.tsBad # 0 THEN "timestamp"
-    ELSE IF n.durBad # 0 THEN "duration" ELSE IF o.any /\ n.anyBad # 0 THEN "any" ELSE IF n.maskBad # 0 THEN "fieldmask"
+    ELSE IF n.durBad # 0 THEN "duration" ELSE IF n.anyBad # 0 THEN "any" ELSE IF n.maskBad # 0 THEN "fieldmask"
     ELSE IF o.mapped /\ n.unmapped # 0 THEN "mapper" ELSE IF o.noempty /\ (n.emptyLists # 0 \/ n.emptyScalarLists # 0) THEN "emptylist" ELSE "nilmessage"
 VARIABLE l
 Step ==
